@@ -838,6 +838,28 @@ fn mutants(rng: &mut Rng, tx: &Transaction, ws: &[Vec<u8>], full: bool, quick: b
             }
         }
     }
+    // malformed stream: witness scripts that are not scripts of any template (with the
+    // script_pubkey recomputed so that the template parsers see them): truncated push headers,
+    // a PUSHDATA4 announcing 2^32-1 bytes, random bytes
+    if n > 0 {
+        let k = rng.below(n as u64) as usize;
+        let mut garbage: Vec<Vec<u8>> = vec![
+            vec![0x4c],
+            vec![0x4d, 0x01],
+            vec![0x4e, 0xff, 0xff, 0xff, 0xff, 0x00],
+            vec![0x4e, 0x02, 0x00, 0x00, 0x00, 0xaa, 0xbb],
+            vec![0x21],
+            vec![0x63, 0x21],
+            vec![0x00],
+        ];
+        for _ in 0..3 {
+            let len = 1 + rng.below(60) as usize;
+            garbage.push((0..len).map(|_| rng.below(256) as u8).collect());
+        }
+        for g in garbage {
+            out.push(vec![Mut::Ws(k, g), Mut::SpkFix(k)]);
+        }
+    }
     out.push(vec![Mut::AddWs(vec![0x51])]);
     // foreign outputs: a p2wpkh, an anchor for a foreign key, an anchor for our own funding key
     let foreign = pk_of(secp, &[0x43u8; 32]).serialize();
